@@ -116,15 +116,17 @@ static void lists_and_functions(unsigned long long& unit)
 					unlink(path.c_str());
 				}
 	// Export_Function, both overloads, linear and logarithmic
-	for(int lg = 0; lg < 2; lg++)
+	// (lg = 2, 3: logarithmic ranges whose quotient hi/lo is not representable)
+	for(int lg = 0; lg < 4; lg++)
 		for(unsigned steps : {2u, 5u, 50u})
 			for(int ua = 0; ua < 2; ua++)
 			{
 				if(!mc::mine(unit++)) continue;
-				auto f = [](double x) { return 3.5 * x * x - 1.0 / (1 + x); };
-				double lo = lg ? 1e-3 : -2, hi = lg ? 1e5 : 6;
+				std::function<double(double)> f = [](double x) { return 3.5 * x * x - 1.0 / (1 + x); };
+				if(lg >= 2) f = [](double x) { return std::log10(x) + 0.25; };
+				double lo = lg == 2 ? 1e-160 : lg == 3 ? 1e-300 : lg ? 1e-3 : -2, hi = lg == 2 ? 1e160 : lg == 3 ? 1e300 : lg ? 1e5 : 6;
 				V dims = ua ? V{1e-3, 1e6} : V{};
-				std::string key = std::string(lg ? "log" : "linear") + ",steps=" + std::to_string(steps) + ",units=" + std::to_string(ua);
+				std::string key = std::string(lg ? "log" : "linear") + (lg >= 2 ? ",range=" + mc::dec(lo) + ".." + mc::dec(hi) : std::string()) + ",steps=" + std::to_string(steps) + ",units=" + std::to_string(ua);
 				std::string p1 = g_dir + "/c20_f1_" + std::to_string(getpid()), p2 = g_dir + "/c20_f2_" + std::to_string(getpid());
 				VV b1, b2;
 				V xs = lg ? Log_Space(lo, hi, steps) : Linear_Space(lo, hi, steps);
